@@ -115,7 +115,7 @@ def merge(ck, traces, k, name):
 def judge(ck, traces, par=8):
     """validate the trace files in parallel; report violations"""
     def val(tp):
-        return ck.validate_events("MsgHash_Trace", "trace/MsgHash_Trace.cfg", tp, timeout=2400, name="trace_" + os.path.basename(tp)[:-7], heap_gb=3)
+        return ck.validate_events("MsgHash_Trace", "trace/MsgHash_Trace.cfg", tp, timeout=2400, name="trace_" + os.path.basename(tp)[:-7], heap_gb=6 if ck.thorough else 3)
     anyc = collections.Counter()
     nrej = 0
     for tp, (res, rejected) in zip(traces, vlib.parallel(val, traces, n=par)):
